@@ -59,6 +59,12 @@ CHECKS = {
  "C17": ("differential execution on cloned state: two-hop vs its two single swaps; negative generation (same pool, non-chaining legs); threshold probes",
          "Every successful two-hop of the histories is replayed on a clone as two single swaps with the intermediate amount measured at the vaults: pools, tick arrays, oracles, vaults byte-identical, trader deltas identical, intermediate balance untouched; hostile two-hops must fail; outer thresholds probed at x-1/x/x+1.",
          SVM, "DESIGN.md#c17"),
+ "C18": ("lifecycle rule monitor over decoded pre/post states of every lifecycle instruction in hostile histories; differential against the same state unfrozen for lock semantics",
+         "Open (all flavours, derived bounds), close, reset, reposition, lock, transfer-locked and bundle instructions are generated with valid and invalid parameters and judged by rules taken from the statement (token supply/authority, range validity and derived-bound resolution by an independent search, emptiness for close/reset, lock restrictions, bitmap == open bundled positions found in the bank).",
+         SVM + "; Metaplex CPI of *_with_metadata is a recording stub", "DESIGN.md#c18"),
+ "C19": ("invariant sweep over all decoded settings/pool/oracle accounts after every instruction of histories and a setter storm + enumerated mint-admission lattice on cloned state",
+         "Bounds are re-stated independently and checked on every Config, FeeTier, AdaptiveFeeTier, Whirlpool and Oracle account in the bank after each successful instruction, under a storm of initialize/set instructions with hostile arguments; every subset (size <= 2 quick / 3 thorough) of 24 Token-2022 extension type numbers x freeze authority x five badge states is written with the harness's TLV writer and run through all three creation paths with the mint in either position; everything the statement's allow-list forbids must fail.",
+         SVM + "; spl-token-2022's TLV reader defines which extensions a (possibly truncated) mint carries; only rejection is judged", "DESIGN.md#c19"),
 }
 NOT_YET = "check under construction in this session (designed in DESIGN.md section 5); not claimed until it runs silent on the unchanged tree"
 
